@@ -4,6 +4,7 @@ package main
 
 import (
 	"fmt"
+	"go/ast"
 	"go/types"
 	"strings"
 
@@ -15,7 +16,11 @@ func (fr *Frame) execCall(v ssa.Value, c *ssa.CallCommon, st *State, alive *Term
 	if fr.top {
 		name := calleeName(c)
 		for _, ac := range fr.vc.ct.AssumeAfter {
-			if ac.Var != name && ac.Var != fr.ord(in) {
+			target, recvName, hasRecv := strings.Cut(ac.Var, "@")
+			if target != name && target != fr.ord(in) {
+				continue
+			}
+			if hasRecv && (len(c.Args) == 0 || !fr.valueNamed(c.Args[0], recvName)) {
 				continue
 			}
 			e2 := fr.env0.child()
@@ -243,8 +248,15 @@ func (fr *Frame) applyContract(v ssa.Value, ct *Contract, name string, c *ssa.Ca
 	// 1b. the caller's own at_call assertions for this callee
 	if fr.top {
 		for i, ac := range vc.ct.AtCalls {
-			if ac.Var != name && ac.Var != fr.ord(in) {
+			target, recvName, hasRecv := strings.Cut(ac.Var, "@")
+			if target != name && target != fr.ord(in) {
 				continue
+			}
+			if hasRecv {
+				// CALLEE@local: only call sites whose receiver / first argument is the local of that name
+				if len(c.Args) == 0 || !fr.valueNamed(c.Args[0], recvName) {
+					continue
+				}
 			}
 			e2 := fr.env0.child()
 			e2.st = st
@@ -462,6 +474,20 @@ func (fr *Frame) inline(v ssa.Value, fn *ssa.Function, c *ssa.CallCommon, args [
 		}
 	}
 	return guard
+}
+
+// valueNamed: does the source-level local `name` denote SSA value v (by debug information)?
+func (fr *Frame) valueNamed(v ssa.Value, name string) bool {
+	for _, b := range fr.fn.Blocks {
+		for _, in := range b.Instrs {
+			if d, ok := in.(*ssa.DebugRef); ok && !d.IsAddr && d.X == v {
+				if id, ok := d.Expr.(*ast.Ident); ok && id.Name == name {
+					return true
+				}
+			}
+		}
+	}
+	return false
 }
 
 func (fr *Frame) ordOr(in ssa.Instruction, d string) string {
